@@ -33,6 +33,11 @@ def sh(cmd, **kw):
     return p.returncode, p.stdout
 
 
+def is_neutral(name):
+    """semantically neutral rewrites (negative mutants): must stay quiet"""
+    return name.lower().startswith(("neutral", "neg_")) or name in ("signbit-constexpr-fallback",)
+
+
 def main():
     args = sys.argv[1:]
     prop = args.pop(0)
@@ -84,7 +89,7 @@ def main():
                                                  if rp.get(k) is not None}
                         os.unlink(m.group(1))
                 nofail = bool(vio) and all(v.rstrip().endswith("no-failing-input-found") for v in vio)
-                if name.startswith("neutral_"):
+                if is_neutral(name):
                     r["expected"] = "quiet"
                     r["verdict"] = "quiet" if rc == 0 and not vio else ("neutral-alarm" if rc == 1 and nofail else "false-alarm")
                     ok = r["verdict"] != "false-alarm"
